@@ -1211,6 +1211,7 @@ class LiteralData(Packet):
         super(LiteralData, self).__init__()
         self.format = 'b'
         self.filename = ''
+        self._filename_fallback = False
         self.mtime = datetime.now(timezone.utc)
         self._contents = bytearray()
 
@@ -1218,8 +1219,15 @@ class LiteralData(Packet):
         _bytes = bytearray()
         _bytes += super(LiteralData, self).__bytearray__()
         _bytes += self.format.encode('latin-1')
-        _bytes += bytearray([len(self.filename)])
-        _bytes += self.filename.encode('latin-1')
+        # the length octet counts the octets of the encoded name; names are written the way parse() reads them
+        filename = self.filename.encode('utf-8')
+        if self._filename_fallback:
+            try:
+                filename = self.filename.encode('latin-1')
+            except UnicodeEncodeError:
+                pass
+        _bytes += bytearray([len(filename)])
+        _bytes += filename
         _bytes += self.int_to_bytes(calendar.timegm(self.mtime.utctimetuple()), 4)
         _bytes += self._contents
         return _bytes
@@ -1229,6 +1237,7 @@ class LiteralData(Packet):
         pkt.header = copy.copy(self.header)
         pkt.format = self.format
         pkt.filename = self.filename
+        pkt._filename_fallback = self._filename_fallback
         pkt.mtime = self.mtime
         pkt._contents = self._contents[:]
 
@@ -1242,7 +1251,12 @@ class LiteralData(Packet):
         fnl = packet[0]
         del packet[0]
 
-        self.filename = packet[:fnl].decode()
+        try:
+            self.filename = packet[:fnl].decode('utf-8')
+
+        except UnicodeDecodeError:
+            self.filename = packet[:fnl].decode('latin-1')
+            self._filename_fallback = True
         del packet[:fnl]
 
         self.mtime = packet[:4]
